@@ -380,10 +380,10 @@ pub fn gen_zone(r: &mut Rng, o: ZoneOpts) -> ZoneSpec {
         let extended = r.chance(1, 3);
         let want = !(o.allow_invalid && r.chance(1, 20));
         let rs = gen_rule(r, extended, want, o.tag);
-        if rs.needs_extensions() && !(o.allow_invalid && r.chance(1, 10)) {
+        style = gen_style(r);
+        if rs.needs_extensions_styled(style) && !(o.allow_invalid && r.chance(1, 10)) {
             version = 3;
         }
-        style = r.below(32) as u8;
         rule = Some(rs);
     }
     let mut z = ZoneSpec { version, types, trans, leaps, rule, rule_style: style, desig_mode: (r.below(2) | if r.chance(1, 6) { 4 } else { 0 } | if r.chance(1, 300) { 2 } else { 0 }) as u8, indicators: r.below(4) as u8, decoy: if r.chance(1, 2) { 0 } else { 1 + r.next() % 1_000_000 } };
@@ -604,6 +604,16 @@ pub fn gen_contents_basic(r: &mut Rng, sc: &mut Scenario, n: usize, allow_invali
     }
 }
 
+/// printing style of a rule: the five layout bits, sometimes with explicitly signed rule times
+pub fn gen_style(r: &mut Rng) -> u8 {
+    let base = r.below(32) as u8;
+    if r.chance(1, 6) {
+        base | crate::spec::ST_TIME_SIGN | if r.chance(1, 2) { crate::spec::ST_NEG_ZERO } else { 0 }
+    } else {
+        base
+    }
+}
+
 fn tz_value(r: &mut Rng, sc: &Scenario) -> TzArg {
     let rel = |r: &mut Rng| r.pick(REL_NAMES).to_string();
     match r.below(20) {
@@ -628,7 +638,7 @@ fn tz_value(r: &mut Rng, sc: &Scenario) -> TzArg {
                 2 => (String::new(), pad(r, false)),
                 _ => (pad(r, false), pad(r, true)),
             };
-            TzArg::Desc { spec, style: r.below(32) as u8, lpad, rpad }
+            TzArg::Desc { spec, style: gen_style(r), lpad, rpad }
         }
         14 => {
             // very long values (path-length limits), exactly around 4096 octets
